@@ -19,6 +19,9 @@ func init() {
 			{"C11.policy", "wrapper methods follow the documented routing / caching / failover / repair table for every error class", 7, c11Policy},
 			{"C11.failover-guard", "active index advanced only by the request that observed the active member fail; under the write lock", 3, c11FailoverGuard},
 			{"C11.swap", "SwapStore.s is used only under the lock; Swap closes and assigns under the write lock", 6, c11Swap},
+			{"C11.flag-defaults", "cache repair is on unless switched off", 1, func(c *Ctx) {
+				c.flagDefaults(map[string]flagSpec{"cache-repair": {"true", "cmdStoreOptions.cacheRepair", 1}})
+			}},
 			{"C11.shapes", "the CLI wraps stores as Cache(Router(FailoverGroup...), RepairableCache?)", 3, c11Shapes},
 		},
 	})
